@@ -333,6 +333,9 @@ func mainHistory(seed uint64, rng *Rng, blocks int) *Pilot {
 		if b == 8 || p.R.Chance(1, 4) {
 			p.EditReadFail()
 		}
+		if b == 9 || p.R.Chance(1, 8) {
+			p.SameBlockCreateRunCreate()
+		}
 		k := 3 + p.R.Intn(6)
 		for i := 0; i < k && len(ps) > 0; i++ {
 			u := p.user()
